@@ -535,6 +535,27 @@ def run_real_verify(case):
             res.violation(f"C02/real-verify/{'accepts' if got else 'rejects'}/{cls}", vc, got, exp, "verify_schnorr disagrees with BIP340 on secp256k1 (the valid triple was verified first in the same process)")
         else:
             res.ok(f"verify==ref({exp})", nontrivial=(case["d"], case["msg"], dev) if dev != "valid" else None, sample={"d": case["d"], "dev": dev} if dev in ("s=n", "R=p") else None)
+        # the same 64 bytes as a hand-built signature object: SchnorrSignature(R, s) with R given as the even-y and
+        # as the odd-y point of that x (both serialise to the same bytes, so BIP340's verdict on the bytes is the oracle)
+        rx, sv = int.from_bytes(s64[:32], "big"), int.from_bytes(s64[32:], "big")
+        lifted = c.lift_x(rx) if rx < PP else None
+        if lifted is not None and dev.split("-byte")[0] in ("valid", "n-s", "s-for-negated-nonce", "forge-oddY-R", "forge-unnormalised-secret", "forge-result-infinity", "otherkey", "s=0", "s=n-1", "msg", "R=Gx"):
+            for par, Rp in (("evenY", lifted), ("oddY", (lifted[0], PP - lifted[1]))):
+
+                def g(Rp=Rp):
+                    point = shared_point if pk == ec.b32(P[0]) else pecc.S256Point.parse(pk)
+                    sg = pecc.SchnorrSignature(pecc.S256Point(Rp[0], Rp[1]), sv)
+                    if sg.serialize() != s64:
+                        return None  # the object does not stand for these bytes: nothing to compare
+                    return point.verify_schnorr(m, sg)
+
+                got2 = accepted(attempt(g))
+                if got2 and not exp:
+                    res.violation(f"C02/real-verify/accepts/signature-object-R-{par}/{dev.split('-byte')[0]}", vc, got2, exp, f"verify_schnorr accepts a SchnorrSignature object built from the {par} point of R.x and s whose 64-byte serialisation BIP340 rejects")
+                elif exp and not got2 and par == "evenY":
+                    res.violation(f"C02/real-verify/rejects/signature-object-R-{par}/{dev.split('-byte')[0]}", vc, got2, exp, "verify_schnorr rejects a SchnorrSignature object (R given as its even-y point) whose serialisation BIP340 accepts")
+                else:
+                    res.ok(f"sig-object-{par}==ref({exp})", nontrivial=(case["d"], case["msg"], dev, par))
     return res
 
 
@@ -800,10 +821,10 @@ def engines(tier, seed):
         es.append(Engine(f"toy-verify-{toy[0]}", gen_toy_verify(toy), run_toy_verify, toy=toy, kind="E3", rule=f"toy curve p={toy[0]} n={toy[1]}: every public key (both parities) x messages x R.x in [0,p+1]+{{2^256-1}} (first message: [0,2p+1], the alias x+p of every valid x) x s in [0,n+1]+{{2^256-1}}: SchnorrSignature.parse + verify_schnorr == BIP340 verify, both directions; plus the key as a 32-byte string through S256Point.parse: every kx in [0,2p+1]+{{2^256-1}} (0, off-curve, >= p incl. the alias x+p of every valid x) x {'1 message' if tier == 'quick' else '2 messages'} x the same (R.x, s) grid == BIP340 verify of those bytes"))
         es.append(Engine(f"toy-history-{toy[0]}", gen_toy_history(toy), run_toy_history, toy=toy, kind="E2", rule=f"toy curve p={toy[0]} n={toy[1]}: every secret d0 paired with d0+1 and with n-d0 (same x-only key): every sequence of <= {hl} sign operations over the alphabet (key 0/1, message 0/1, aux 0/1) on two key objects created once, in one process; after each operation the 64 bytes == BIP340 reference and the signature is verified under both keys == BIP340 verify"))
     es += [
-        Engine("real-sign", gen_real_sign, run_real_sign, kind="E1", rule="secp256k1: secrets covering all four (P parity, R parity) classes + boundary secrets x messages x aux {None,00,ff,filler}: exact 64 bytes of the BIP340 reference, verifies, also under the parsed x-only key; plus, for an odd-Y secret (thorough: also an even-Y one), the first filler messages whose reference signature has s < 2^248 resp. R.x < 2^248 (leading zero byte, deterministic reference-only search)"),
-        Engine("real-verify", gen_real_verify, run_real_verify, kind="E1", rule="secp256k1: base signatures (4 parity classes + 2 per leading-zero secret with a leading zero byte in s resp. R.x) x deviation catalogue (bit flips of all 64 signature bytes, 32 message bytes and 32 key bytes: 1 bit per byte quick / all 8 thorough; R in {0,1,p-1,p,2^256-1,off-curve,Gx}; s in {0,n-1,n,n+1,2^256-1,s+n,n-s}; other/off-curve/out-of-range key; forgeries computed from the secret: odd-Y R with matching s, s for the un-normalised secret, s*G - e*P = infinity): accepted iff the BIP340 reference accepts"),
+        Engine("real-sign", gen_real_sign, run_real_sign, kind="E1", rule="secp256k1 (each deviation also as a hand-built SchnorrSignature(R, s) object with R given as the even-y and as the odd-y point of its x, judged by the 64 bytes the object serialises to): secrets covering all four (P parity, R parity) classes + boundary secrets x messages x aux {None,00,ff,filler}: exact 64 bytes of the BIP340 reference, verifies, also under the parsed x-only key; plus, for an odd-Y secret (thorough: also an even-Y one), the first filler messages whose reference signature has s < 2^248 resp. R.x < 2^248 (leading zero byte, deterministic reference-only search)"),
+        Engine("real-verify", gen_real_verify, run_real_verify, kind="E1", rule="secp256k1 (each deviation also as a hand-built SchnorrSignature(R, s) object with R given as the even-y and as the odd-y point of its x, judged by the 64 bytes the object serialises to): base signatures (4 parity classes + 2 per leading-zero secret with a leading zero byte in s resp. R.x) x deviation catalogue (bit flips of all 64 signature bytes, 32 message bytes and 32 key bytes: 1 bit per byte quick / all 8 thorough; R in {0,1,p-1,p,2^256-1,off-curve,Gx}; s in {0,n-1,n,n+1,2^256-1,s+n,n-s}; other/off-curve/out-of-range key; forgeries computed from the secret: odd-Y R with matching s, s for the un-normalised secret, s*G - e*P = infinity): accepted iff the BIP340 reference accepts"),
         Engine("real-history", gen_real_history, run_real_history, kind="E2", rule=f"secp256k1: one even-Y and one odd-Y secret: every sequence of <= {hl} sign operations over the alphabet (key 0/1, message 0/1, aux 0/1), both key objects created once per sequence, all operations in one process; after each operation the 64 bytes == BIP340 reference and the signature is verified under both keys == BIP340 verify"),
-        Engine("real-keyforms", gen_real_keyforms, run_real_keyforms, kind="E1", rule="secp256k1: 4 parity-class secrets (thorough: +4) x ways to obtain the key object: signing keys {uncompressed/testnet constructor, WIF round trip compressed and uncompressed/testnet, tweaked_key() without and with merkle root}: 64 bytes == BIP340 reference for the object's secret, verifies under key.point and the parsed x-only key; verifying points {x-only, SEC 02, 03, 04, 04 of the negated point, int and field constructors, -1*P, even_point(), PrivateKey(n-d).point, (d-1)G+G}: valid / message bit / n-s / valid again == BIP340 verify under the x-only key"),
+        Engine("real-keyforms", gen_real_keyforms, run_real_keyforms, kind="E1", rule="secp256k1 (each deviation also as a hand-built SchnorrSignature(R, s) object with R given as the even-y and as the odd-y point of its x, judged by the 64 bytes the object serialises to): 4 parity-class secrets (thorough: +4) x ways to obtain the key object: signing keys {uncompressed/testnet constructor, WIF round trip compressed and uncompressed/testnet, tweaked_key() without and with merkle root}: 64 bytes == BIP340 reference for the object's secret, verifies under key.point and the parsed x-only key; verifying points {x-only, SEC 02, 03, 04, 04 of the negated point, int and field constructors, -1*P, even_point(), PrivateKey(n-d).point, (d-1)G+G}: valid / message bit / n-s / valid again == BIP340 verify under the x-only key"),
         Engine("nonce-bytes", gen_nonce_bytes, run_nonce_bytes, kind="E1", rule="secp256k1, PrivateKey.bip340_k directly (no curve arithmetic): 6 secrets x (message with byte i forced to 00 / ff, i = 0..31; aux likewise) and secrets 01<<8i, ff<<8i (i = 0..31, below n) x 3 (message, aux) pairs: k mod n in {k0, n-k0} for the BIP340 nonce k0 = int(hash_nonce(bytes(d) xor hash_aux(aux) || bytes(P) || m)) mod n (both give the same signature)"),
         Engine("tagcache", gen_tagcache, run_tagcache, kind="E2", rule="every sequence of <= 3 first uses over the 10 tagged-hash functions from an emptied TAG_HASH_CACHE equals sha256(sha256(tag)||sha256(tag)||msg); plus tagged_hash with arbitrary tags {empty, 'Tap', 'TapLeaf', the 64 midstate bytes of TapLeaf, 'TapLeaf\\x00', two 11-byte tags, sha256('TapLeaf')}: every history of <= 3 uses over these 8 and of exactly 4 over the first 4, each use twice with a fresh equal bytes object"),
     ]
